@@ -401,6 +401,7 @@ fn cfg_c08() -> RenderProp {
         min_nontrivial: 5,
         shape: None,
         flavours: false,
+        dynamic_load: false,
     }
 }
 
@@ -440,5 +441,6 @@ fn cfg_c07() -> RenderProp {
         min_nontrivial: 5,
         shape: None,
         flavours: false,
+        dynamic_load: false,
     }
 }
